@@ -107,8 +107,9 @@ class FsSource:
         for i in range(n):
             # strictly increasing times (equal times are C08's subject); where the layout has microseconds, several records
             # share a second and differ only below it, so the prepended datetime has to be each record's own
-            if has_usec and i and rng.random() < 0.5 and us < 900_000:
-                us += rng.choice([1, 250_000, 99_999])
+            inc = rng.choice([1, 250_000, 99_999])
+            if has_usec and i and rng.random() < 0.5 and us + inc <= 999_999:
+                us += inc
             else:
                 t += rng.choice([1, 2])
                 us = rng.choice([0, 7, 123_456]) if has_usec else 0
